@@ -14,6 +14,8 @@ CONSTANTS
   DevRehashDropsBoundary = FALSE
   DevRebuildDropsLast = FALSE
   DevCsumClearsLeaf = TRUE
+  DevSbCsumRefuses = FALSE
+  DevInodeUninitWipes = FALSE
 INVARIANT TypeOK
 INVARIANT TreeUnchanged
 INVARIANT ExitOK
